@@ -240,8 +240,13 @@ def run_oracles(prog, meta, sessions):
 
         # ---- C02: a task that had an output is executed only if one of the dependencies it had recorded is inconsistent: for a
         # require, with the output the required task has AFTER it was made consistent (early cut-off); for a resource, with its content
-        if q_only and not ab and not had_abort and not s.errs and wf and not prog.uses_failing and prev_nodes and prev_map is not None and prog.kind == 'wf':
+        if q_only and not ab and not had_abort and wf and prev_nodes and prev_map is not None and prog.kind == 'wf':
             now = P.parse_dump(s.dump)
+            # dependency checks that failed with an error in this session (they count as inconsistent): (resource, checker, stamp)
+            erred = set()
+            for e in s.events:
+                f = e.split()
+                if f[0] == 'CRE' and f[-1].startswith('err'): erred.add((f[1], f[2], f[3]))
             for t in counts:
                 nd = prev_nodes.get('T%d' % t)
                 if nd is None or nd['out'] == '-' or not nd['outs']: continue
@@ -253,7 +258,8 @@ def run_oracles(prog, meta, sessions):
                     elif k in ('R', 'W'):
                         r = tgt[1:]
                         if not r.isdigit() or s.pre_map is None or s.pre_map.get(int(r)) != s.map.get(int(r)): ok = False     # content changed during the session: not judged here
-                        else: ok = res_check(c, s.pre_map.get(int(r)), st)
+                        elif (r, c, st) in erred: ok = False          # its own check failed: executing the task is justified
+                        else: ok = res_check('0' if c == '4' else c, s.pre_map.get(int(r)), st)      # checker 4 is the exact checker while it does not fail
                     else:
                         ok = False
                     if ok is not True:
